@@ -21,7 +21,7 @@ import (
 // registrations, duplicate signer entries, denominations with upper-case letters).
 
 func moreScenarios() []func() []monFailure {
-	return []func() []monFailure{scenSlotFeeWraps, scenUpperCaseOwner, scenSignerTextPrefix, scenManyRegistrationsExport, scenDuplicateSignerEntry, scenUpperCaseDenomSupply}
+	return append([]func() []monFailure{scenSlotFeeWraps, scenUpperCaseOwner, scenSignerTextPrefix, scenManyRegistrationsExport, scenDuplicateSignerEntry, scenUpperCaseDenomSupply}, round5Scenarios()...)
 }
 
 // govPass submits the messages as one proposal (the next proposal id is *propID+1), votes yes with the only delegator and
